@@ -172,37 +172,36 @@ pixman_edge_init (pixman_edge_t *e,
                   pixman_fixed_t x_bot,
                   pixman_fixed_t y_bot)
 {
-    pixman_fixed_t dx, dy;
-    pixman_fixed_48_16_t dx64, dy64;
+    pixman_fixed_48_16_t dx64, dy64, n64;
 
     e->x = x_top;
     e->e = 0;
 
-    /* The differences of two 16.16 numbers need 33 bits.  For an edge
-     * that spans more than the 16.16 range follow the same line with
-     * halved deltas (only their ratio matters) instead of letting them
-     * wrap: INT32_MIN / -1 below is a trap.
+    /* The differences of two 16.16 numbers need 33 bits.  Quotient and
+     * remainder of dx by dy are taken in 64 bits: the remainder is below
+     * dy, so whenever dy fits a pixman_fixed_t the edge follows the exact
+     * line, whatever dx is (also -dx cannot overflow here).  Only a dy
+     * that does not fit itself (an edge taller than the 16.16 range)
+     * forces both deltas to be halved: the same line when both are even,
+     * otherwise a line within two units of it.
      */
     dx64 = (pixman_fixed_48_16_t) x_bot - x_top;
     dy64 = (pixman_fixed_48_16_t) y_bot - y_top;
-    if (dx64 > pixman_max_fixed_48_16 || dx64 <= pixman_min_fixed_48_16 ||
-	dy64 > pixman_max_fixed_48_16 || dy64 <= pixman_min_fixed_48_16)
+    if (dy64 > pixman_max_fixed_48_16 || dy64 < pixman_min_fixed_48_16)
     {
 	dx64 /= 2;
 	dy64 /= 2;
     }
-    dx = (pixman_fixed_t) dx64;
-    dy = (pixman_fixed_t) dy64;
-    e->dy = dy;
+    e->dy = (pixman_fixed_t) dy64;
     e->dx = 0;
 
-    if (dy)
+    if (dy64)
     {
-	if (dx >= 0)
+	if (dx64 >= 0)
 	{
 	    e->signdx = 1;
-	    e->stepx = dx / dy;
-	    e->dx = dx % dy;
+	    e->stepx = (pixman_fixed_t) (dx64 / dy64);
+	    e->dx = (pixman_fixed_t) (dx64 % dy64);
 	    if (e->dx)
 	    {
 		/* Fractional slope: every later state of the walk is
@@ -214,14 +213,14 @@ pixman_edge_init (pixman_edge_t *e,
 	    }
 	    else
 	    {
-		e->e = -dy;
+		e->e = -e->dy;
 	    }
 	}
 	else
 	{
 	    e->signdx = -1;
-	    e->stepx = -(-dx / dy);
-	    e->dx = -dx % dy;
+	    e->stepx = (pixman_fixed_t) -(-dx64 / dy64);
+	    e->dx = (pixman_fixed_t) (-dx64 % dy64);
 	    e->e = 0;
 	}
 
@@ -231,7 +230,20 @@ pixman_edge_init (pixman_edge_t *e,
 	_pixman_edge_multi_init (e, STEP_Y_BIG (n),
 				 &e->stepx_big, &e->dx_big);
     }
-    pixman_edge_step (e, y_start - y_top);
+
+    /* y_start - y_top needs 33 bits too; pixman_edge_step takes an int */
+    n64 = (pixman_fixed_48_16_t) y_start - y_top;
+    while (n64 > INT32_MAX)
+    {
+	pixman_edge_step (e, INT32_MAX);
+	n64 -= INT32_MAX;
+    }
+    while (n64 < -INT32_MAX)
+    {
+	pixman_edge_step (e, -INT32_MAX);
+	n64 += INT32_MAX;
+    }
+    pixman_edge_step (e, (int) n64);
 }
 
 /*
